@@ -38,6 +38,9 @@ for mn, mx in ((2, 2), (2, 3), (1, 2)):
         [[0, 1], [0]],
     ):
         CASES.append({"min": mn, "max": mx, "plan": plan})
+# a job of the same description is added WHILE the monitor hands off an over-sized stale group (remainder path with a concurrent add)
+LATE_CASES = [{"min": 2, "max": 2, "plan": [[0, 0, 0]], "late": [0]}, {"min": 1, "max": 2, "plan": [[0, 0, 0]], "late": [0]},
+              {"min": 2, "max": 2, "plan": [[0, 0, 0]], "late": [1]}, {"min": 2, "max": 3, "plan": [[0, 0]], "late": [0]}]
 
 
 def scenario(case, prefix):
@@ -72,6 +75,12 @@ def scenario(case, prefix):
             t.start()
         for t in ts:
             t.join()
+        if case.get("late"):
+            # the group goes stale, and while the monitor deals with it another adder shows up
+            s.clock += 4.0
+            late = th.CThread(target=adder, args=(case["late"], "late"), name="late-adder")
+            late.start()
+            late.join()
         # let the monitor make full passes with the clock beyond the stale time
         for _ in range(3):
             s.clock += 4.0
@@ -142,7 +151,7 @@ def run(ctx):
 
     bound = ctx.pick(1, 2)
     cap = ctx.pick(20000, 400000)
-    plan = [(c, bound) for c in CASES]
+    plan = [(c, bound) for c in CASES] + [(c, 2) for c in (LATE_CASES[:2] if ctx.quick else LATE_CASES)]
     if ctx.quick:
         # the races between an adder and the monitor need two preemptions: explore them on the three smallest harnesses
         plan += [(c, 2) for c in CASES if c["min"] == 2 and c["max"] == 2 and c["plan"] in ([[0, 1]], [[0], [0]], [[0], [1]])]
@@ -161,10 +170,11 @@ def run(ctx):
     execs = sum(r["stats"]["executions"] for r in res)
     return {"coverage": {
         "states": len(states), "transitions": sum(r["ntrans"] for r in res), "traces_validated_against_impl": execs,
-        "preemption_bound": bound, "preemption_bound_small_harnesses": 2, "harnesses": len(CASES), "capped": any(r["stats"]["capped"] for r in res),
+        "preemption_bound": bound, "preemption_bound_small_harnesses": 2, "harnesses": len(CASES) + len(LATE_CASES[:2] if ctx.quick else LATE_CASES), "capped": any(r["stats"]["capped"] for r in res),
         "max_scheduling_points": max(r["stats"]["max_points"] for r in res), "distinct_outcomes": sum(r["outcomes"] for r in res),
         "exhaustive": not any(r["stats"]["capped"] for r in res),
-        "rule": f"18 harnesses (3 size bounds x 6 add plans with 1-2 adder threads, 1-2 job descriptions, up to 3 jobs) around the real JobArrayer "
+        "rule": f"18 harnesses (3 size bounds x 6 add plans with 1-2 adder threads, 1-2 job descriptions, up to 3 jobs) plus 2 (thorough 4) with a late adder that "
+        f"arrives while the monitor hands off an over-sized stale group, around the real JobArrayer "
         f"with its real monitor thread; every schedule with <= {bound} preemptions at instruction-level scheduling points (sys.monitoring) and at "
         "lock / event / join operations; logical clock driven past the stale time for 3 monitor passes; oracle: on_error never called, every "
         "job in exactly one batch, batches homogeneous and of legal size, num_pending equals the jobs not yet handed off, no deadlock",
